@@ -1,14 +1,14 @@
 package leg
 
 import (
-	"reflect"
-	"strconv"
-	"encoding/hex"
 	"bytes"
+	"encoding/hex"
 	"fmt"
 	"os"
 	"path/filepath"
+	"reflect"
 	"sort"
+	"strconv"
 	"strings"
 
 	"github.com/openacid/slim/encode"
